@@ -18,7 +18,9 @@ EXPLANATION = (
     "only from a response obtained through the validating handle; (W2) Record.proof is stored only by VerifiedRrset::update_rrset; "
     "DnssecDnsHandle::send forces DO, AD=1, CD=0 and routes every query response through verify_response; (G3) the four Ok exits "
     "of verify_response; (G4) the server sets AD only for a Secure summary under AD|DO and turns Bogus into SERVFAIL with the "
-    "records dropped unless CD; DnssecSummary::from_records yields Secure only if no record was non-secure.")
+    "records dropped unless CD; DnssecSummary::from_records yields Secure only if no record was non-secure; (G2, cont.) find_ds_records asks for the DS of an ancestor "
+    "only if that ancestor answered the NS probe and is not the root (the trust-anchor zone is never downgraded); (S2) the validation "
+    "cache key rule shared with C06; (H/N1) helper semantics and argument/field name agreement over hickory_net::dnssec.")
 NOT_DECIDED = ("That the recursive DNSKEY/DS sub-queries interleave correctly for every hierarchy and fault placement (histories); "
                "the cryptographic digest/signature primitives.")
 ASSUMPTIONS = ["FULL feature configuration", "origin census covers MIR aggregates and constants; values read from the wire go "
